@@ -173,6 +173,13 @@ def floats():
     extract_float.generate(REPO, OUT, write_if_changed)
 
 
+def glue():
+    """the forwarding layer (Random's wrappers, trait defaults, Uniform / Samples / Map, the Rng impls that hand a call on) translated to `do` blocks
+    over an arbitrary monad (tools/extract_glue.py)"""
+    import extract_glue
+    extract_glue.generate(REPO, OUT, write_if_changed)
+
+
 def main():
     traits()
     sys.path.insert(0, os.path.dirname(os.path.abspath(__file__)))
@@ -180,6 +187,7 @@ def main():
     scalar()
     effect()
     floats()
+    glue()
     if os.path.exists(os.path.join(os.path.dirname(os.path.abspath(__file__)), "extract_zig.py")):
         import extract_zig
         extract_zig.tables(REPO, OUT, write_if_changed)
